@@ -1,8 +1,90 @@
-/- driver component stub: replaced by the real component when its model exists -/
+/- driver component `symmetry`: the model of python/tak/symmetry/symmetry.py and the decidable
+   predicates of C15 evaluated on implementation data -/
 import TakVerif.Driver.Ser
+import TakVerif.Model.Symmetry
 
 namespace Tak.Driver.Symmetry
+open Tak.Ser Tak.Sym
 
-def handle : List String → Option String := fun _ => none
+def showMat (m : Mat3) : String := ",".intercalate (m.toList.map toString)
+
+def parseMat (s : String) : Option Mat3 := do
+  let xs ← (s.splitOn ",").mapM String.toInt?
+  match xs with
+  | [a, b, c, d, e, f, g, h, i] => some ⟨a, b, c, d, e, f, g, h, i⟩
+  | _ => none
+
+def symAt (k : String) : Option Mat3 := do
+  let k ← k.toNat?
+  SYMS[k]?
+
+def indexOf (m : Mat3) : String :=
+  match SYMS.findIdx? (· == m) with
+  | some k => toString k
+  | none => "?"
+
+/-- groups of 8 tokens: a matrix and a position -/
+def parsePairs : List String → Option (List (Mat3 × Pos))
+  | [] => some []
+  | m :: rest => do
+    let m ← parseMat m
+    let p ← parsePos (rest.take 7)
+    let tl ← parsePairs (rest.drop 7)
+    pure ((m, p) :: tl)
+termination_by l => l.length
+decreasing_by simp only [List.length_drop, List.length_cons]; omega
+
+/-- the decidable part of `C15_group` evaluated on a list of matrices: eight, pairwise
+    distinct, identity present, closed under product and inverse, and the same set as the
+    eight isometries of the square (`SYMS`) -/
+def isGroup (l : List Mat3) : Bool :=
+  l.length == 8 && decide l.Nodup && l.contains Mat3.ident &&
+  l.all (fun a => l.all fun b => l.contains (Mat3.mul a b)) &&
+  l.all (fun a => l.any fun b => Mat3.mul a b == Mat3.ident && Mat3.mul b a == Mat3.ident) &&
+  l.all (fun a => SYMS.contains a) && SYMS.all (fun a => l.contains a)
+
+/-- the predicate of `C15_variants` evaluated on a list of (matrix, position) pairs claimed
+    for `p`: starts with `p`, no position twice, every one of the eight images present,
+    and every entry `(σ, q)` has `σ` among the eight and `q = T σ p` -/
+def variantsOK (p : Pos) (out : List (Mat3 × Pos)) : Bool :=
+  (match out.head? with
+   | some e => e.2 == p
+   | none => false) &&
+  decide ((out.map (·.2)).Nodup) &&
+  SYMS.all (fun s => (out.map (·.2)).contains (transformPos s p)) &&
+  out.all (fun e => SYMS.contains e.1 && transformPos e.1 p == e.2)
+
+/-- ops:
+  `matrices`                       → `ok m;m;…`            the eight matrices of `SYMS`, flattened
+  `tpos <k> <pos7>`                → `ok <pos>`            `transformPos SYMS[k]`
+  `tmove <k> <size> <move4>`       → `ok <move>` | `crash KeyError`
+  `variants <pos7>`                → `ok k <pos> ; k <pos> ; …`
+  `checkgroup <m> … <m>`           → `true` | `false`      (`isGroup` on implementation matrices)
+  `checkvariants <pos7> (<m> <pos7>)*` → `true` | `false`  (`variantsOK` on implementation output)
+-/
+def handle : List String → Option String
+  | ["matrices"] => some ("ok " ++ ";".intercalate (SYMS.map showMat))
+  | "tpos" :: k :: rest => do
+    let s ← symAt k
+    let p ← parsePos rest
+    pure s!"ok {showPos (transformPos s p)}"
+  | "tmove" :: k :: n :: rest => do
+    let s ← symAt k
+    let n ← n.toNat?
+    let m ← parseMove rest
+    pure (match transformMove? s m n with
+          | some m' => s!"ok {showMove m'}"
+          | none => "crash KeyError")
+  | "variants" :: rest => do
+    let p ← parsePos rest
+    pure ("ok " ++ " ; ".intercalate ((symmetries p).map fun e => s!"{indexOf e.1} {showPos e.2}"))
+  | "checkgroup" :: rest => do
+    let l ← rest.mapM parseMat
+    pure (toString (isGroup l))
+  | "checkvariants" :: rest => do
+    let p ← parsePos (rest.take 7)
+    let out ← parsePairs (rest.drop 7)
+    pure (toString (variantsOK p out))
+  | _ => none
 
 end Tak.Driver.Symmetry
